@@ -248,10 +248,16 @@ class Escape:
         return False
 
     # ------------------------------------------------------------------ expressions
-    def exprs(self, f: Func, st: ast.AST, es: List[ast.AST]) -> Set[Effect]:
+    def exprs(self, f: Func, st: ast.AST, es: List[ast.AST], _lazy_depth: int = 0) -> Set[Effect]:
         out: Set[Effect] = set()
         for e in es:
             for n in walk_no_nested(e):
+                if isinstance(n, ast.Name) and isinstance(n.ctx, ast.Load) and _lazy_depth < 2:
+                    # a generator expression bound to a local is evaluated lazily: what its body can raise is raised
+                    # where the local is consumed (in the try-context of *this* statement), not where it was bound
+                    for _s2, v in assignments_to(f.node, n.id):
+                        if isinstance(v, ast.GeneratorExp):
+                            out |= self.exprs(f, st, [v.elt] + [g.iter for g in v.generators] + [c for g in v.generators for c in g.ifs], _lazy_depth + 1)
                 if isinstance(n, ast.Call):
                     out |= self.call(f, st, n)
                 elif isinstance(n, ast.BinOp) and isinstance(n.op, (ast.Mod, ast.FloorDiv, ast.Div)):
@@ -608,6 +614,8 @@ class Escape:
             d = dotted(e.func)
             if d in ("len", "abs"):
                 return True
+            if d == "sum" and e.args and isinstance(e.args[0], (ast.GeneratorExp, ast.ListComp)) and (len(e.args) == 1 or self.nonneg(f, e.args[1], at, depth + 1)):
+                return self.nonneg(f, e.args[0].elt, at, depth + 1)
             if d == "max" and any(self.nonneg(f, a, at, depth + 1) for a in e.args):
                 return True
             if d == "min" and e.args and all(self.nonneg(f, a, at, depth + 1) for a in e.args):
@@ -758,6 +766,34 @@ class Escape:
 
         if guarded_by(self.ctx, f, at, pred):
             return True
+        # x = next((t for t in seq if <comparison on t>), None) and the use is dominated by `x is not None`
+        for side, other in ((small, big), (big, small)):
+            if isinstance(side, ast.Attribute) and isinstance(side.value, ast.Name):
+                alias = side.value.id
+                defs = [v for _s, v in assignments_to(f.node, alias) if not (isinstance(v, ast.Constant) and v.value is None)]
+                g = _first_of_genexp(defs[0]) if len(defs) == 1 and defs[0] is not None else None
+                if g is not None and isinstance(g.generators[0].target, ast.Name) and dotted(g.elt) == g.generators[0].target.id:
+                    tname = g.generators[0].target.id
+                    s2 = f"{tname}.{side.attr}"
+                    o2 = src(other)
+                    lo, hi = (s2, o2) if side is small else (o2, s2)
+                    hit = False
+                    for cond in g.generators[0].ifs:
+                        for cj in conjuncts(cond):
+                            for l, op, r in compare_parts(cj):
+                                if (isinstance(op, (ast.LtE, ast.Lt)) and src(l) == lo and src(r) == hi) or (isinstance(op, (ast.GtE, ast.Gt)) and src(l) == hi and src(r) == lo):
+                                    hit = True
+
+                    def notnone2(test, alias=alias):
+                        for l, op, r in compare_parts(test):
+                            if dotted(l) == alias and isinstance(r, ast.Constant) and r.value is None:
+                                return True if isinstance(op, ast.IsNot) else False if isinstance(op, ast.Is) else None
+                        if dotted(test) == alias:
+                            return True
+                        return None
+                    if hit and guarded_by(self.ctx, f, at, notnone2):
+                        self.facts_used.append(f"ordered: {f.fq}: {src(small)} <= {src(big)} via `{alias} = next(<{tname} for {tname} in .. if comparison>, None)`")
+                        return True
         # the alias is only ever bound under the comparison
         for alias, srcname in ((s_alias, s_src), (b_alias, b_src)):
             if alias is None:
@@ -800,8 +836,6 @@ class Escape:
         if isinstance(e, ast.Name):
             out = []
             defs = assignments_to(f.node, e.id)
-            if not defs:
-                return []
             for st, v in defs:
                 if isinstance(v, ast.Constant) and v.value is None:
                     continue
@@ -810,12 +844,28 @@ class Escape:
                     elt = it.elt if isinstance(it, (ast.ListComp, ast.GeneratorExp)) else None
                     r = self._structs_of(f, elt, depth + 1) if elt is not None else []
                 elif v is not None:
-                    r = self._structs_of(f, v, depth + 1)
+                    g = _first_of_genexp(v)
+                    if g is not None:
+                        # x = next((elt for t in seq if cond), None): an element of seq
+                        it = origin(f.node, strip_cast(g.generators[0].iter))
+                        elt = it.elt if isinstance(it, (ast.ListComp, ast.GeneratorExp)) else None
+                        r = self._structs_of(f, elt, depth + 1) if elt is not None else []
+                    else:
+                        r = self._structs_of(f, v, depth + 1)
                 else:
                     r = []
                 if not r:
                     return []
                 out.extend(r)
+            if not defs or not out:
+                # a comprehension / generator-expression target anywhere in the function
+                for n in body_walk(f.node):
+                    if isinstance(n, ast.comprehension) and dotted(n.target) == e.id:
+                        it = origin(f.node, strip_cast(n.iter))
+                        elt = it.elt if isinstance(it, (ast.ListComp, ast.GeneratorExp)) else None
+                        r = self._structs_of(f, elt, depth + 1) if elt is not None else []
+                        if r:
+                            return r
             return out
         return []
 
@@ -1432,6 +1482,13 @@ def _remove_name(e: ast.AST, name: str) -> Optional[ast.AST]:
         if r is not e.right:
             return ast.BinOp(left=e.left, op=ast.Add(), right=r)
     return e
+
+
+def _first_of_genexp(v: ast.AST) -> Optional[ast.GeneratorExp]:
+    """v is `next((elt for t in seq [if ..]), <default>)` with one generator: the generator expression."""
+    if isinstance(v, ast.Call) and dotted(v.func) == "next" and v.args and isinstance(v.args[0], ast.GeneratorExp) and len(v.args[0].generators) == 1:
+        return v.args[0]
+    return None
 
 
 # ---------------------------------------------------------------------------- rule entry
